@@ -5,6 +5,7 @@ import (
 	"go/ast"
 	"go/token"
 	"go/types"
+	"sort"
 	"strings"
 
 	"github.com/jmattheis/goverter/config"
@@ -47,6 +48,8 @@ func ParseDocs(c ParseDocsConfig) ([]config.RawConverter, error) {
 	if err != nil {
 		return nil, err
 	}
+	// the order of the patterns must not decide which converter is handled (and reported) first
+	sort.Slice(pkgs, func(i, j int) bool { return pkgs[i].PkgPath < pkgs[j].PkgPath })
 	rawConverters := []config.RawConverter{}
 	for _, pkg := range pkgs {
 		if len(pkg.Errors) > 0 {
